@@ -35,15 +35,40 @@ func (c *concCtx) within(prop, sig, what string, f func()) bool {
 	beat()
 	done := make(chan struct{})
 	go func() { defer close(done); f() }()
-	select {
-	case <-done:
-		return true
-	case <-time.After(watchdog):
-		buf := make([]byte, 1<<16)
-		n := runtime.Stack(buf, true)
-		c.report(prop, sig, what, map[string]interface{}{"goroutines": trimStacks(string(buf[:n]))})
-		return false
+	for round := 0; ; round++ {
+		select {
+		case <-done:
+			return true
+		case <-time.After(watchdog):
+			buf := make([]byte, 1<<18)
+			n := runtime.Stack(buf, true)
+			// a call that sits INSIDE a system call is waiting for the kernel, not for the library: close(2) of an
+			// inotify instance waits for an SRCU grace period and takes many seconds on a loaded machine (seen
+			// with ten test suites running next to a sweep). Give the kernel up to two minutes; a call blocked
+			// on a channel or a mutex is reported at once.
+			if round < 15 && inKernel(string(buf[:n])) {
+				beat()
+				continue
+			}
+			c.report(prop, sig, what, map[string]interface{}{"goroutines": trimStacks(string(buf[:n]))})
+			return false
+		}
 	}
+}
+
+// inKernel: some goroutine of the library (or of os.File.Close on its behalf) is in state [syscall] inside close,
+// inotify_rm_watch or inotify_add_watch
+func inKernel(stacks string) bool {
+	for _, g := range strings.Split(stacks, "\n\n") {
+		first, _, _ := strings.Cut(g, "\n")
+		if !strings.Contains(first, "[syscall") {
+			continue
+		}
+		if strings.Contains(g, "fsnotify") && (strings.Contains(g, "syscall.Close") || strings.Contains(g, "InotifyRmWatch") || strings.Contains(g, "InotifyAddWatch") || strings.Contains(g, "poll.(*FD).destroy")) {
+			return true
+		}
+	}
+	return false
 }
 
 func trimStacks(s string) string {
